@@ -33,6 +33,14 @@ def search(pid, obligation, seed, budget_s=None, out_dir=None):
     except subprocess.TimeoutExpired:
         return dict(found=False, error='rt runner timed out', cmd=' '.join(cmd))
     res = dict(found=False, cmd=' '.join(cmd), rc=p.returncode, stdout_tail=p.stdout[-1500:], stderr_tail=p.stderr[-800:])
+    # finding probes: deviations from the literal property text that exist on the unchanged tree are reported by the runner as RT-FINDING
+    # lines (never as failures); the driver matches them against known_findings.txt
+    import re as _re
+    res['findings'] = []
+    for ln in p.stdout.split('\n'):
+        m = _re.match(r'RT-FINDING property=(\S+) key=(\S+)(?: suite=(\S+))?(?: detail="(.*)")?', ln.strip())
+        if m:
+            res['findings'].append(dict(property=m.group(1), key=m.group(2), suite=m.group(3), detail=(m.group(4) or '')[:400]))
     if p.returncode == 1 and os.path.exists(out):
         try:
             res['case'] = json.load(open(out))
